@@ -151,14 +151,19 @@ P["C11"] = dict(
 P["C12"] = dict(
     level="proof",
     text=("History independence is decided through the pool discipline: newPrinter returns a Pristine printer (every one of the "
-          "per-call fields reset) given only the pool invariant PoolInv, and free() requires PoolInv (empty buffer, no override, no "
-          "context, no operand/error retained) at every call site, on every path; Take* detaches the result from the buffer; "
-          "package-level variables are written only where declared (frame.global)."),
-    ref="DESIGN 4 (C12)",
-    note=TRUST + "sync.Pool is assumed to hand an object to one goroutine at a time. Concurrency (data races, schedules) is outside "
-         "what sequential contracts decide: that half of the property is not claimed.",
-    decided=["no per-call state survives recycling: Put only under PoolInv, Get + reset gives Pristine", "results are detached from recycled buffers"],
-    undecided=["freedom from data races / interleavings of goroutines (no concurrency reasoning in this technique)"])
+          "per-call fields reset, width/precision numbers included) given only the pool invariant PoolInv, and free() requires PoolInv "
+          "(empty buffer, no override, no context, no operand/error retained) at every call site, on every path; Take* detaches the "
+          "result from the buffer and an array reinterpreted as a string is given up before return (alias.cast); package-level "
+          "variables are written only where declared (frame.global). For the 'calls on other goroutines' half the deductive part "
+          "establishes what a race needs to be absent: a scan of EVERY function of the module (also those without contracts) finds "
+          "each write, address-of, slicing, append/copy-into or pointer-receiver call on a package-level variable, and each must be a "
+          "variable declared `shared` with a stated justification (sync.Pool; the two registries written only by Register*)."),
+    ref="DESIGN 4 (C12), A.11",
+    note=TRUST + "sync.Pool is assumed to hand an object to one goroutine at a time; registration concurrent with printing is outside the "
+         "claim. Schedules themselves are not explored by the deductive part (the bounded harness samples them).",
+    decided=["no per-call state survives recycling: Put only under PoolInv, Get + reset gives Pristine", "results are detached from recycled buffers",
+             "no package-level mutable state is shared between calls except the declared (and justified) ones"],
+    undecided=["interleavings of goroutines as such (sampled by the bounded harness; the race detector is not part of the check)"])
 
 P["C13"] = dict(
     level="proof",
